@@ -243,7 +243,8 @@ class Definitions(WObject):
         container = SchemaCollection(self)
         for t in (t for t in self.types if t.local()):
             for root in t.contents():
-                schema = Schema(root, self.url, self.options, loaded_schemata, container)
+                baseurl = root.get("url") or self.url
+                schema = Schema(root, baseurl, self.options, loaded_schemata, container)
                 container.add(schema)
         if not container:
             root = Element.buildPath(self.root, "types/schema")
@@ -378,6 +379,9 @@ class Import(WObject):
             definitions.types.append(types)
         else:
             types = definitions.types[-1]
+        # The schema's own relative locations are relative to its own URL,
+        # not to the URL of the WSDL importing it.
+        d.root.set("url", d.url)
         types.root.append(d.root)
         log.debug("imported (XSD):\n%s", d.root)
 
